@@ -1,5 +1,11 @@
 package main
 
+import (
+	"math"
+
+	"github.com/emirpasic/gods/v2/queues/circularbuffer"
+)
+
 // Scale: states of a thousand and more elements, argument lists of hundreds of values (with
 // repeats), and churn histories of thousands of calls on one instance that never becomes empty.
 // These are ordinary family events (complete observations, validated by the same trace
@@ -146,6 +152,69 @@ func scaleQue(j *jobCtx, kind string) {
 		}
 		cs = append(cs, Call{Op: put, V: 7}, Call{Op: put, V: 8}, Call{Op: take}, Call{Op: "Values"},
 			Call{Op: "FromJSON", Vs: rangeInts(0, 700)}, Call{Op: take}, Call{Op: put, V: 9}, Call{Op: "Peek"})
+		runScript(x, cs)
+	}
+}
+
+// rings of capacities that are no power of two and no multiple of 64, filled by bursts of enqueues with shorter bursts
+// of dequeues in between (net growth while the window is wrapped around), run full, overwritten, drained
+func ringGrowth(j *jobCtx) {
+	caps := []int{70, 100, 150, 777}
+	if !j.quick() {
+		caps = append(caps, 65, 97, 130, 200, 1000, 1500)
+	}
+	for _, c := range caps {
+		x := &queInst{kind: "circularbuffer", cap: c, q: newQue("circularbuffer", c)}
+		var cs []Call
+		v, size := 0, 0
+		for round := 0; round < 40 && len(cs) < 7*c; round++ {
+			in := 10 + j.r.Intn(55)
+			if round == 0 {
+				in = 64
+			}
+			for i := 0; i < in; i++ {
+				v++
+				cs = append(cs, Call{Op: "Enqueue", V: v%997 + 1})
+				if size < c {
+					size++
+				}
+			}
+			out := 5 + j.r.Intn(50)
+			if out > size-1 {
+				out = size - 1
+			}
+			for i := 0; i < out; i++ {
+				cs = append(cs, Call{Op: "Dequeue"})
+				size--
+			}
+			if round%5 == 4 {
+				cs = append(cs, Call{Op: "Peek"}, Call{Op: "Values"}, Call{Op: "Full"})
+			}
+		}
+		for i := 0; i < c+3; i++ { // overwrite a full ring, then drain it
+			v++
+			cs = append(cs, Call{Op: "Enqueue", V: v%997 + 1})
+		}
+		for i := 0; i < c+2; i++ {
+			cs = append(cs, Call{Op: "Dequeue"})
+		}
+		cs = append(cs, Call{Op: "Enqueue", V: 5}, Call{Op: "Values"})
+		runScript(x, cs)
+	}
+}
+
+// rings of zero-size elements with the largest capacities an int can express (index arithmetic near MaxInt)
+func ringZeroSize(j *jobCtx) {
+	for _, c := range []int{math.MaxInt, math.MaxInt - 1, math.MaxInt / 2, 1 << 40} {
+		var x *queInst
+		gi := guard("que", "circularbuffer", "New", func() {
+			x = &queInst{kind: "circularbuffer", cap: c, q: zsRing{circularbuffer.New[struct{}](c)}}
+		})
+		if gi.Panic || x == nil {
+			continue
+		}
+		cs := []Call{{Op: "Size"}, {Op: "Enqueue"}, {Op: "Size"}, {Op: "Enqueue"}, {Op: "Peek"}, {Op: "Values"}, {Op: "Full"}, {Op: "Dequeue"}, {Op: "Enqueue"},
+			{Op: "Enqueue"}, {Op: "Clear"}, {Op: "Enqueue"}, {Op: "Size"}, {Op: "Dequeue"}, {Op: "Dequeue"}, {Op: "Enqueue"}, {Op: "Values"}}
 		runScript(x, cs)
 	}
 }
@@ -299,9 +368,9 @@ func scaleMap(j *jobCtx, kind string) {
 	}
 	cfgs := []sc{{"nat", "nat", 0}}
 	if kind == "btree" {
-		cfgs = []sc{{"nat", "", 3}, {"nat", "", 32}}
+		cfgs = []sc{{"nat", "", 3}, {"nat", "", 8}, {"nat", "", 12}, {"nat", "", 32}}
 		if !j.quick() {
-			cfgs = append(cfgs, sc{"natx", "", 5}, sc{"nat", "", 128})
+			cfgs = append(cfgs, sc{"natx", "", 5}, sc{"nat", "", 16}, sc{"nat", "", 128})
 		}
 	}
 	n := scaleN(j)
